@@ -104,14 +104,14 @@ def main():
             for o3 in (0, 1):
                 for o4 in (0, 1):
                     spec.append(("square", f"mi={ids.index(mid)},o3={o3},o4={o4}"))
-        for mid in core:
+        for mid in core[:4]:
             for o3 in (0, 1):
                 for o4 in (0, 1):
                     for o0 in (0, 1):
                         for o6 in (0, 1):
                             spec.append(("square9", f"mi={ids.index(mid)},o3={o3},o4={o4},o0={o0},o6={o6}"))
     spec.append(("reach_square", f"mi={ids.index('base')},o3=1,o4=0"))
-    ct = 300 if a.tier == "quick" else 900
+    ct = 300 if a.tier == "quick" else 600
     vs = chx.run(HARNESS, spec, jobs=a.jobs, cond_timeout=ct, path_timeout=60)
     reach = [v for v in vs if v.func.startswith("reach_")]
     vs = [v for v in vs if not v.func.startswith("reach_")]
@@ -209,7 +209,7 @@ def main():
     cov["exhaustive"] = all(v.kind == "confirmed" for v in vs)
     cov["functions_encoded"] = ["casadi.model.Model.simplify / _simplify_once, dae_residual_function, initial_residual_function (executed symbolically by CrossHair; option flags symbolic)"]
     cov["bounds"] = ("quick: 4 models (base, affine, deralias, chain3+-) x all 2^6 settings of (eliminate_constant_assignments, replace_constant_values, replace_parameter_expressions, detect_aliases, "
-                     "eliminable_variable_expression, factor_and_simplify_equations); thorough: all 47 family models x 2^6, and 8 models x 2^9 adding "
+                     "eliminable_variable_expression, factor_and_simplify_equations); thorough: all 47 family models x 2^6, and 4 models x 2^9 adding "
                      "(replace_parameter_values, expand_mx, allow_derivative_aliases)")
     cov["bounds"] += ("; concrete supplementary stage: every model of the extended C14 families (alias links and cycles, 15 equation orientations, badly scaled affine systems) and of a family where every algebraic variable is constant-assigned with further equations before/after, that is "
                       "balanced and has a nonsingular Jacobian at a generic point, under the option sets C14 uses for it; 22 option-specific corner models: "
